@@ -121,7 +121,9 @@ def load_sources(ctx, n_mut_per_file, include_known=True, gen=0, pid=None):
     if gen:
         import wgen
         # operator grid (see lib/wgen.py): thorough = every operator at both widths, 6 range pairs; quick = u32, 3 range pairs
-        if ctx.tier == "thorough":
+        if pid not in (None, "C01", "C04"):
+            grid = []      # (pure functions without I/O: nothing for the suspension schedules of C02 / C05 to explore)
+        elif ctx.tier == "thorough":
             grid = wgen.opgrid_programs(random.Random(ctx.seed * 31 + 7))
         else:
             grid = wgen.opgrid_programs(random.Random(ctx.seed * 31 + 7), per_op=3, widths=("u32",))
